@@ -31,32 +31,6 @@ def interval(c, t):
     return (c.div(t, 32 * 32 * BASE_TICKS), c.mod(c.div(t, 32 * BASE_TICKS), 32), c.mod(c.div(t, BASE_TICKS), 32))
 
 
-# ------------------------------------------------------------------------------------------------ KeyCache._get_key
-@REG.contract("dpapi_ng._client.KeyCache._get_key", props=["C10"], assumed=True, note="summary used by callers; verified separately under C10")
-def get_key_summary(c):
-    I = c.I
-    self_ = c.param("self", T.obj("KeyCache"))
-    sd = c.param("target_sd", T.Bytes)
-    rkid = c.param("root_key_id", T.UUID)
-    l0 = c.param("l0", T.Int)
-    l1 = c.param("l1", T.Int)
-    l2 = c.param("l2", T.Int)
-    c.raises("ValueError", when=None)  # malformed root key parameters / out-of-range L0
-    c.raises("NotImplementedError", when=None)
-    if c.ctx.branch(z3.Bool("getkey_miss!%d" % len(c.ctx.taken))):
-        c.returns(None)
-        return
-    name = SStr(fresh_str("hash_name"))
-    e = c.fresh(envelope(root_key_identifier=T.const(rkid), l0=T.const(l0), kdf_parameters=T.const(kdf_params_rope(c, name))), "cached")
-    base = fresh_bytes("base")
-    e.ghost["base"] = base
-    e.ghost["hash_name"] = name
-    c.assume(valid_seed(I, HASHOBJ(name.term), e, base))
-    c.assume(covers(e.fields["l1"], e.fields["l2"], l1, l2))
-    c.assume(in_range(l1, l2))
-    c.returns(e)
-
-
 # ------------------------------------------------------------------------------------------------ C09
 @REG.contract("dpapi_ng._client._get_protection_gke_from_cache", props=["C09"])
 def get_protection_gke_from_cache(c):
